@@ -8,8 +8,12 @@ import (
 )
 
 // C17 replay accessors: thin exports of the unexported storage helpers (no logic).
-func VerifC17PutRelayer(n *native.NativeService, a common.Address) error            { return putRelayer(n, a) }
-func VerifC17PutRelayerApply(n *native.NativeService, p *RelayerListParam) error  { return putRelayerApply(n, p) }
-func VerifC17PutRelayerRemove(n *native.NativeService, p *RelayerListParam) error { return putRelayerRemove(n, p) }
-func VerifC17PutApplyID(n *native.NativeService, id uint64) error                 { return putApplyID(n, id) }
-func VerifC17PutRemoveID(n *native.NativeService, id uint64) error                { return putRemoveID(n, id) }
+func VerifC17PutRelayer(n *native.NativeService, a common.Address) error { return putRelayer(n, a) }
+func VerifC17PutRelayerApply(n *native.NativeService, p *RelayerListParam) error {
+	return putRelayerApply(n, p)
+}
+func VerifC17PutRelayerRemove(n *native.NativeService, p *RelayerListParam) error {
+	return putRelayerRemove(n, p)
+}
+func VerifC17PutApplyID(n *native.NativeService, id uint64) error  { return putApplyID(n, id) }
+func VerifC17PutRemoveID(n *native.NativeService, id uint64) error { return putRemoveID(n, id) }
